@@ -516,14 +516,32 @@ pub fn check_b(ctx: &Ctx, bytes: &Vec<u8>) -> Result<(), Fail> {
         }
     }
     let container = if tr == "FromMeta" { "" } else { "#[darling(attributes(my))] " };
-    let src = format!(
-        "{}{} Rcv<{}>{} {{ {} }}",
-        container,
-        if is_enum { "enum" } else { "struct" },
-        decl.join(", "),
-        where_clause,
-        body
-    );
+    // a receiver without any parameter may still have a where-clause (global predicates are legal): the impl repeats it
+    let parameterless = d.ratio(1, 16);
+    let src = if parameterless {
+        used.clear();
+        all_plants.clear();
+        n_skipped_using = 0;
+        format!(
+            "{}{} Rcv where {} {{ {} }}",
+            container,
+            if is_enum { "enum" } else { "struct" },
+            *d.pick(&["String: Clone", "String: Clone, for<'x> &'x str: Into<String>,", "Vec<u8>: Default, Self: Sized"]),
+            if is_enum { "A, B { f0: u8 }" } else { "f0: u8, #[darling(skip)] f1: String" }
+        )
+    } else {
+        format!(
+            "{}{} Rcv<{}>{} {{ {} }}",
+            container,
+            if is_enum { "enum" } else { "struct" },
+            decl.join(", "),
+            where_clause,
+            body
+        )
+    };
+    if parameterless {
+        ctx.class("no-parameters-but-a-where-clause");
+    }
     ctx.set_render(json!({"trait": tr, "source": src}));
     let di: syn::DeriveInput = match syn::parse_str(&src) {
         Ok(x) => x,
@@ -610,8 +628,9 @@ pub fn check_b(ctx: &Ctx, bytes: &Vec<u8>) -> Result<(), Fail> {
     // GenericsExt agrees with the declaration
     let dt: BTreeSet<String> = di.generics.declared_type_params().iter().map(|i| i.to_string()).collect();
     let dl: BTreeSet<String> = di.generics.declared_lifetimes().iter().map(|i| i.to_string()).collect();
+    let (decl_t, decl_l): (BTreeSet<String>, BTreeSet<String>) = if parameterless { (BTreeSet::new(), BTreeSet::new()) } else { (tparams.iter().cloned().collect(), lparams.iter().cloned().collect()) };
     ensure!(
-        dt == tparams.iter().cloned().collect() && dl == lparams.iter().cloned().collect(),
+        dt == decl_t && dl == decl_l,
         "c19b:declared-params",
         "declared_type_params/lifetimes {:?}/{:?} differ from the declaration {:?}/{:?}",
         dt, dl, tparams, lparams
